@@ -277,6 +277,31 @@ def run(ctx):
             f = 'exception-%s: %s' % (c['op'], type(ex).__name__ + ':' + str(ex)[:100])
         if f:
             ctx.report(c, 'failure', f)
+    # every row permutation of a 3x3 (and some 4x4) base matrix, for inv / det / every solve variant: LU pivoting of each kind
+    perms = list(itertools.permutations(range(3))) + [(1, 2, 3, 0), (3, 0, 1, 2), (2, 3, 0, 1), (1, 0, 3, 2)]
+    for perm in perms:
+        n = len(perm)
+        for kind, sub in [('solve', 'uu'), ('solve', 'au'), ('solve', 'ua'), ('inv', None), ('det', None)]:
+            D, P = rng.randint(2, 3), rng.choice([1, 2])
+            c = {'op': kind, 'D': D, 'P': P}
+            base = rand_coeffs(rng, (n, n), -1, 1) + 4 * np.eye(n)
+            xfull = rand_coeffs(rng, (D, P, n, n), -1, 1)
+            for p_ in range(P):
+                xfull[0, p_] = (base + 0.25 * rand_coeffs(rng, (n, n), -1, 1))[list(perm)]
+            if kind == 'solve':
+                c['sub'] = sub
+                c['x'] = xfull if sub[0] == 'u' else xfull[0, 0]
+                c['y'] = rand_coeffs(rng, ((D, P) if sub[1] == 'u' else ()) + (n, 2), -2, 2)
+            else:
+                c['x'] = xfull
+            ctx.evaluations += 1
+            ctx.count('permuted=' + kind)
+            try:
+                f = check(ctx, c)
+            except Exception as ex:
+                f = 'exception-%s: %s' % (c['op'], type(ex).__name__ + ':' + str(ex)[:100])
+            if f:
+                ctx.report(c, 'failure', f)
     for i in range(150 if ctx.tier == 'quick' else 2000):
         c = dtype_case(rng, ctx.tier)
         ctx.evaluations += 1
